@@ -83,6 +83,32 @@ def main(tier: str) -> int:
         dict(selections=("proportional", "tournament_3"), crossovers=("gp_empty", "gp_one_point"), mutations=("gp_weak_grow", "gp_strong_shrink")),
         dict(selections=("tournament_5",), crossovers=("gp_empty",), mutations=("gp_average_swap",)),
     ]
+    def rule_selfc(pb, ks, ops_used, fitness, K, iters, thr):
+        """the documented SelfC* rule, recomputed independently in exact rationals"""
+        means = {}
+        for o, f in zip(ops_used, fitness):
+            means.setdefault(str(o), []).append(Fraction(float(f)))
+        best = None
+        for k_ in sorted(means):
+            m_ = sum(means[k_]) / len(means[k_])
+            if best is None or m_ > best[1]:
+                best = (k_, m_)
+        z = len(ks)
+        vals = []
+        for k_ in ks:
+            v = Fraction(float(pb[k_])) + (Fraction(float(K)) / iters if k_ == best[0] else 0) - Fraction(float(K)) / (z * iters)
+            vals.append(min(max(v, Fraction(float(thr))), Fraction(1)))
+        tot = sum(vals)
+        return [v / tot for v in vals]
+
+    def rule_pdp(ks, ops_used, succ, thr):
+        r = []
+        for k_ in ks:
+            g = [s_ for o, s_ in zip(ops_used, succ) if str(o) == k_]
+            r.append(Fraction(sum(g) ** 2 + 1, len(g) + 1) if g else Fraction(0))
+        tot = sum(r)
+        return [Fraction(float(thr)) + rk * (1 - len(ks) * Fraction(float(thr))) / tot for rk in r]
+
     runs = []
     sid = 0
     for cn in ("SelfCGA", "PDPGA", "SelfCGP", "PDPGP"):
@@ -97,6 +123,11 @@ def main(tier: str) -> int:
                 if cn.startswith("SelfC") and sid % 3 == 0:
                     cfg["K"] = [0.5, 2, 5][sid % 3]
                 runs.append((cn, cfg))
+    # distinct floors per operator kind, long enough for a losing operator to reach its floor
+    for cn in ("SelfCGA", "SelfCGP"):
+        sid += 1
+        runs.append((cn, dict(pop_size=10, iters=12 if cn.endswith("GA") else 8, objective="onemax", elitism=True, seed=chk.seed * 100 + sid, keep_history=True, K=3,
+                              selection_threshold_proba=0.02, crossover_threshold_proba=0.08, mutation_threshold_proba=0.2)))
     for cn, cfg in runs:
         d = {"optimizer": cn, **{k: (list(v) if isinstance(v, tuple) else v) for k, v in cfg.items()}}
         try:
@@ -133,6 +164,18 @@ def main(tier: str) -> int:
                 ks = names[kind]
                 opsidx = [ks.index(str(o)) for o in ob]
                 thr = opt._thresholds[kind]
+                # S4: the documented update rule, recomputed independently
+                fit_exact = all(float(f).is_integer() and abs(f) < 1e6 for f in a["fitness"])
+                exp = None
+                if pdp and a["prev"]:
+                    exp = rule_pdp(ks, ob, [bool(x < y) for x, y in zip(a["prev"], a["fitness"])], thr)
+                elif not pdp and fit_exact:
+                    exp = rule_selfc(pb, ks, ob, a["fitness"], opt._K, opt._iters, thr)
+                if exp is not None and not all(C.close(float(pa[k_]), e_) for k_, e_ in zip(ks, exp)):
+                    chk.fail("the probabilities are not updated by the documented rule from the operators that created the population and its fitness",
+                             {"run": d, "generation": g, "kind": kind, "operators": [str(o) for o in ob][:12], "before": {k_: float(pb[k_]) for k_ in ks},
+                              "after": {k_: float(pa[k_]) for k_ in ks}, "rule": {k_: float(e_) for k_, e_ in zip(ks, exp)}},
+                             {"optimizer": cn, "clause": "rule", "kind": kind})
                 if pdp:
                     if a["prev"]:
                         succ = [bool(x < y) for x, y in zip(a["prev"], a["fitness"])]
